@@ -38,11 +38,11 @@ type rawClient struct {
 }
 
 type rawWorld struct {
-	svc     v1connect.YorkieServiceClient
-	clients map[int]*rawClient
-	removed map[string]bool // docID -> removed for everyone
-	removedSlot map[int]bool // document key whose (some) document was removed
-	edits   int
+	svc         v1connect.YorkieServiceClient
+	clients     map[int]*rawClient
+	removed     map[string]bool // docID -> removed for everyone
+	removedSlot map[int]bool    // document key whose (some) document was removed
+	edits       int
 }
 
 type apiKeyInterceptor struct{ key string }
